@@ -1,7 +1,7 @@
 (* Extraction of the C17 executable models (ExtrOcamlBasic only; nat stays an inductive type).
    Z.of_nat is extracted only so that the shared OCaml glue (ocaml/zio.ml.inc), which mentions z/positive, compiles. *)
 From Coq Require Import List ZArith Extraction ExtrOcamlBasic.
-From Kenlm Require Import C17.PCQueueOps Gen.PCQueueProg C17.PCQueueModel C17.PoolModel C17.ChainModel.
+From Kenlm Require Import C17.PCQueueOps Gen.PCQueueProg C17.PCQueueModel C17.PoolModel C17.ChainModel C17.LifeModel.
 Extraction Language OCaml.
 Extraction "extracted/c17_model.ml" init_st step run replay enabled finished interrupt quiesce consumed_by returned_by stored_by produce_prog consume_prog
-  pool_init pool_step pool_step_f pool_finished chain_init chain_step sink_seen stream_records Z.of_nat.
+  pool_init pool_step pool_step_f pool_finished chain_init chain_step sink_seen stream_records chain_block_size life_init life_step lrunning Z.of_nat.
